@@ -73,6 +73,9 @@ let dispatch fn args = match fn, args with
   | "is_indef_term", [b; off] ->
     (match is_indef_term (bytes_of_hex b) (z_of_hex off) with
      | IOk t -> "ok:" ^ str_of_bool t | IErr -> "err" | IOOB -> "OUT-OF-BOUNDS")
+  | "detect_marker", [endobj; l] ->
+    (match detect_marker true (bool_of_str endobj) (bytes_of_hex l) with
+     | DRes i -> hex_of_z i | DOOB -> "OUT-OF-BOUNDS" | DOOF -> "OUT-OF-FUEL")
   | "buf_to_int64", [b] -> hex_of_z (buf_to_int64 (bytes_of_hex b))
   | _ -> failwith ("unknown function " ^ fn)
 let () = main dispatch
